@@ -162,7 +162,9 @@ func init() {
 			nGen = c.Pick(1500, 40000)
 			return nil
 		},
-		Cases: func(c *mon.Ctx) int { return c17PairCases(c) + c17RelCases(c) + nGen + nSeeds + c.Pick(3000, 100000) },
+		Cases: func(c *mon.Ctx) int {
+			return c17PairCases(c) + c17RelCases(c) + c17OnionCases() + nGen + nSeeds + c.Pick(3000, 100000)
+		},
 		RunCase: func(c *mon.Ctx, i int) {
 			rng := c.Rng(i, 0)
 			if i < c17PairCases(c) {
@@ -175,6 +177,11 @@ func init() {
 				return
 			}
 			i -= c17RelCases(c)
+			if i < c17OnionCases() {
+				c17Onion(c, i, rng)
+				return
+			}
+			i -= c17OnionCases()
 			if i < nGen {
 				k := 2 + rng.Intn(4)
 				if i%7 == 0 {
@@ -354,4 +361,59 @@ func c17Relatives(c *mon.Ctx, i int, rng *rand.Rand) {
 	}
 	c.R.Count("relative_triples", 1)
 	c17Judge(c, fmt.Sprintf("gen/relatives%v", labels), dc, "san", sanList, rng, labels)
+}
+
+// ---- onion names with a Tor service descriptor ----
+//
+// The lints for .onion names only run on EV certificates, and the descriptor lint only with a TorServiceDescriptor
+// extension - a shape no random SAN list on the ordinary templates reaches. Every unordered pair of a small pool of
+// onion spellings (v3 and v2 addresses in lower / upper / mixed case, with sub-labels, the descriptor's own host) is
+// put into the SAN of such a certificate next to the descriptor's host; all orders are compared.
+const (
+	c17V3    = "pg6mmjiyjmcrsslvykfwnntlaru7p5svn6y2ymmju6nubxndf4pscryd.onion"
+	c17V3b   = "2gzyxa5ihm7nsggfxnu52rck2vv4rvmdlkiu3zzui5du4xyclen53wid.onion"
+	c17V2    = "zmapzlintonion22.onion"
+	c17DescH = "descriptor2host7.onion"
+)
+
+var c17OnionPool = []string{c17V3, strings.ToUpper(c17V3), "Pg6mmjiyjmcrsslvykfwnntlaru7p5svn6y2ymmju6nubxndf4pscryd.onion", "www." + c17V3, c17V3b, c17V2, strings.ToUpper(c17V2), "www." + c17V2,
+	strings.ToUpper(c17DescH), "www." + c17DescH, "www.example.com", "onion", "x.onion"}
+
+func c17OnionCases() int { n := len(c17OnionPool); return n * (n + 1) / 2 * 2 }
+
+func torDescriptorExt(hosts ...string) *der.Node {
+	list := der.Seq()
+	for i, h := range hosts {
+		hash := make([]byte, 32)
+		for k := range hash {
+			hash[k] = byte(k*7 + i)
+		}
+		list.Children = append(list.Children, der.Seq(der.Str(der.TagUTF8, "https://"+h), der.Seq(der.OID("2.16.840.1.101.3.4.2.1")), der.Bits(hash, 0)))
+	}
+	return der.MakeExt("2.23.140.1.31", false, list)
+}
+
+func c17Onion(c *mon.Ctx, i int, rng *rand.Rand) {
+	n := len(c17OnionPool)
+	withTor := i%2 == 0
+	k := i / 2
+	a := 0
+	for k >= n-a {
+		k -= n - a
+		a++
+	}
+	b := a + k // b >= a: a pair, or the same spelling twice
+	names := []string{c17OnionPool[a], c17OnionPool[b], c17DescH}
+	spec := gen.TLSLeaf(gen.D(2019, 3, 1), names...)
+	spec.Subject = gen.Name(gen.A(gen.OIDC, "US"), gen.A(gen.OIDO, "Example Org"), gen.A(gen.OIDCN, "www.example.com"))
+	spec.ReplaceExt(gen.ExtPolicies(gen.OIDPolEV))
+	if withTor {
+		spec.Exts = append(spec.Exts, torDescriptorExt(c17DescH))
+	}
+	dc, err := der.ParseCert(spec.DER())
+	if err != nil {
+		return
+	}
+	c.R.Count("onion_pairs", 1)
+	c17Judge(c, fmt.Sprintf("gen/onion%v tor=%v", names, withTor), dc, "san", sanList, rng, names)
 }
